@@ -45,6 +45,24 @@ CHECKS = {
  "C19": ("fault_enumeration", "runtime monitor: offline checker over one call log (instrumented store + handlers) against wire output, with injected Save failures and handler refusals",
          "Random handler layouts (ALL/type, three registration phases, refusal on the k-th call), EventLogon handler chains and a store failing on the k-th Save are exercised by sends, replies and rejects; for every step the logged call chain must be the registration-order prefix up to the first refusal, and a message is on Outgoing() iff the chain completed, saved before under its own 34, with Send's error result matching.",
          "Fault space sampled (k-th save, k-th invocation), not exhausted. What type handlers do after an incoming ALL refusal is not judged.", "DESIGN.md §4 C19"),
+ "C04": ("exploration", "runtime monitor: exactly-once / in-order / byte-identical delivery checker per connection over the real Conn/Initiator/Acceptor on a scripted transport",
+         "Random message sequences are cut into read chunks by 13 strategies (incl. a boundary at every offset of every trailing CheckSum field, one byte per read, coalescing) with varied timing and buffer sizes, delivered through an Initiator with a recording handler (asserting one ServeIncoming at a time), an Initiator with DefaultHandler callbacks and an Acceptor with up to 8 simultaneous connections; outbound hand-offs from up to 4 goroutines are compared with the peer-side capture split by the reference splitter.",
+         "Trusted base: wire.Conn (scripted net.Conn) and fixref.SplitStream. Outbound order for SendRaw is judged per goroutine only (no observable global hand-off order).", "DESIGN.md §5 C04"),
+ "C05": ("exploration", "runtime monitor: wire sequence monitor on the peer-side capture plus porcupine counter model over Send operations, under injected store/handler delays",
+         "Full-stack sessions of both roles with 1..16 concurrent senders, timers expiring (N=1), replies and rejects from the inbound path, delay-injecting store decorator, buffer sizes 0/1/10 and GOMAXPROCS 16/1/2 (one per shard); the captured stream must carry 34=c0+1.. without gap/duplicate/inversion, correct comp ids, a SendingTime that parses, never goes backwards, is not later than the write and lies within its Send call; the numbers returned to concurrent Send calls must be linearizable as a counter (porcupine).",
+         "Interleavings are sampled (distinct source-kind signatures are counted in the evidence), not enumerated. Wall-clock tolerance 2 ms for SendingTime.", "DESIGN.md §5 C05"),
+ "C08": ("exploration", "runtime monitor: gap monitor on write timestamps at the peer end with a scheduler-jitter canary",
+         "Sessions of both roles with N in {1,2,3} (+{5,20} thorough) and six application send patterns placed relative to the previous outbound message; every outbound gap must stay within N+N/10+slack and no unsolicited Heartbeat may come sooner than N after the previous outbound message.",
+         "Real time: slack = 100 ms + 3 x measured oversleep; runs with > 250 ms oversleep are inconclusive.", "DESIGN.md §5 C08"),
+ "C09": ("exploration", "runtime monitor: deadline-window monitor on TestRequest / disconnect / close, both sides of each deadline, with jitter canary",
+         "Both roles, N in {1,2} (+{5,20,40}), inbound patterns: total silence, silence ending just before the deadline, a message of any type 2/10/50/85% into the second period, steady traffic for 12 periods; checks TestRequest and disconnect windows (not before T, not after T+T/10+slack), the three disconnect effects, and that live peers see neither.",
+         "Real time with calibrated slack; the reference instant of an inbound message is the moment it was handed to the scripted connection.", "DESIGN.md §5 C09"),
+ "C13": ("fault_enumeration", "runtime monitor: fault matrix on the scripted transport with return/close/notification/bounded-Send checks and a pprof-labelled goroutine-profile leak monitor",
+         "role x 7 termination causes x 7 phases (incl. bursts with pending hand-offs and a steady inbound stream) x buffers x cut positions x timing offsets; after the settling bound the serving call must have returned, the socket be closed, the application notified for peer-caused ends, a later Send return within 3 s, senders be released, and two goroutine profiles 1 s apart must show no library-started goroutine carrying the scenario's label.",
+         "Quick covers every (role,cause,phase) once; thorough the full matrix. Settling bound 5.2 s (N=1). Session.Stop is not a way a connection ends (see DESIGN) and is not in the matrix.", "DESIGN.md §5 C13"),
+ "C20": ("exploration", "Go race detector (-race build of the full-stack workload), reports filtered to library frames and de-duplicated",
+         "16 sessions per process x 3 (quick) / 20 (thorough) repetitions: concurrent senders, timed inbound scripts swept in 20 ms steps across both timer expiries, resend requests, peer re-logon storms, registrations and state queries in their own phases, Session.Stop, on a transport whose directions share no synchronisation. Any DATA RACE block with library frames in both stacks is a violation.",
+         "The detector judges only executed, unordered pairs within its history window; evidence lists timer expiries seen and overlapping activity-kind pairs as a coverage proxy.", "DESIGN.md §5 C20"),
 }
 
 NOT_YET = {}
